@@ -129,6 +129,9 @@ PROPS = {
     ),
     "C02": dict(
         components=[("flow-C02", 250, 6000)],
+        race=True,
+        race_components=["flow-C02"],
+        race_quick=40,
         parallel=8,
         shrink=False,
         trusted=EXEC_TRUST,
@@ -193,6 +196,7 @@ PROPS = {
     ),
     "C06": dict(
         components=[("offsets", 3000, 300000)],
+        parallel=4,
         trusted=[KAFKA_CLIENT, "Go int64 arithmetic modelled by wrap64 on Int"],
         assumptions=["committed offsets and watermarks within 0..2^62, distinct partitions in one assignment (the statement's quantifier); "
                      "other negative offset sentinels are compared model-vs-code only"],
